@@ -14,7 +14,9 @@ MANIFEST = dict(
          "transaction per HTLC output, in output order), C04_entry_points_agree (on every content phase 2 signs, phase 1 "
          "accepts canon_tx with canon_ws and returns the same signature; needs the parse-after-build round trip of every "
          "script template, proved once for a template interpreter), C04_no_foreign_tx (under injectivity of the digest and "
-         "of signature verification no other transaction verifies), C04_validated_contents_bounded (the expiry premise of "
+         "of signature verification no other transaction verifies), C04_wire_binding (the same at the protocol handler: "
+         "SignRemoteCommitmentTx2 signs canon_tx of wire_content = the glue that truncates msat amounts to satoshis and maps "
+         "the wire sides, and SignRemoteCommitmentTx accepts that transaction with the same signature), C04_validated_contents_bounded (the expiry premise of "
          "the round trip follows from C05's validator theorem), C04_hash_lengths (the executable SHA-256 / RIPEMD-160 "
          "meet the length premises). The model describes the code with setup_channel refusing a funding output index "
          "above 65535 (notes/fixes/C04-funding-vout-16-bits.patch; C04_old_vout_truncation_refuted keeps the witness "
@@ -38,7 +40,7 @@ MANIFEST = dict(
 
 PINNED = ["C04_phase1_canonical", "C04_phase2_sig", "C04_decode_roundtrip", "C04_canon_order_independent",
           "C04_entry_points_agree", "C04_hash_lengths", "C04_entry_points_agree_sha256", "C04_no_foreign_tx",
-          "C04_htlc_sigs_bind",
+          "C04_htlc_sigs_bind", "C04_wire_binding",
           "C04_nonvacuous", "C04_anchors_type_refuted", "C04_old_vout_truncation_refuted",
           "C04_validated_contents_bounded"]
 
@@ -254,7 +256,12 @@ def run(res):
                 "point's answer on a fresh node. Restart stage: every second signed case is restored from the store "
                 "(Node::restore_node) and both entry points are retried, compared with a not-restarted control; every third channel "
                 "is readied under a permanent id different from its initial id (requests through either id, the other one after "
-                "the restart; the harness derives from the basepoints of the initial id's stub)",
+                "the restart; the harness derives from the basepoints of the initial id's stub). Handler level: every signed case is "
+                "sent again as wire messages (SignRemoteCommitmentTx2 and, on another node, SignRemoteCommitmentTx with the witness "
+                "scripts in the PSBT; as_vec -> from_vec -> ChannelHandler::handle at protocol 4/5/6) whose HTLC amounts are msat "
+                "values x*1000 + {0, 1, 500, 999}, sides interleaved; the expected BOLT-3 transaction is built with LDK directly "
+                "from the harness's own reading of the wire fields (msat / 1000 rounded down, side 1 = offered by the "
+                "counterparty), compared with the model's canon_tx (wire_content ...) and used to verify the replies",
         "samples": [strip(c) for c in cases[:2]],
         "cases": len(cases),
         "phase2_signed": len(signed),
